@@ -66,15 +66,20 @@ def linear(ck, sh, mm):
             with symx.object_arrays():
                 m0, s0 = _solve(M, gname, f, Z, V, pulses)
                 ma, sa = _solve(M, gname, f, Z, [a * v for v in V], pulses)
-                singles = []
+                singles, alone = [], []
                 for i in range(k):
                     vs = [V[j] if j == i else 0j for j in range(k)]
                     mi, si = _solve(M, gname, f, Z, vs, pulses)
                     singles.append(mi.current)
+                    # the same source as the only registered one: a source held at 0 V is no source
+                    ma1, sa1 = _solve(M, gname, f, Z, [V[i]], [pulses[i]])
+                    alone.append(ma1.current)
+                # registration order must not matter
+                mr, sr = _solve(M, gname, f, Z, V[::-1], pulses[::-1])
                 data = [(s.impedance, s.power, s.current, s.voltage, s.idx) for s in s0]
                 dataa = [(s.impedance, s.power) for s in sa]
             return dict(inputs=dict(f=f, V=V, a=a, Z=zin), I0=m0.current, Ia=ma.current,
-                        singles=singles, data=data, dataa=dataa, power=m0.power, powera=ma.power,
+                        singles=singles, alone=alone, Irev=mr.current, data=data, dataa=dataa, power=m0.power, powera=ma.power,
                         n=n, a=a, V=V, m=m0)
 
         def goals(o):
@@ -85,6 +90,10 @@ def linear(ck, sh, mm):
                 g.append(('superposition', z3.And(*[
                     eq_term(o['I0'][i], sum((s[i] for s in o['singles'][1:]), o['singles'][0][i]))
                     for i in range(n)])))
+                g.append(('a source held at 0 V acts like no source', z3.And(*[
+                    eq_term(a[i], b[i]) for a, b in zip(o['singles'], o['alone']) for i in range(n)])))
+                g.append(('currents do not depend on the order in which sources are registered', z3.And(*[
+                    eq_term(o['I0'][i], o['Irev'][i]) for i in range(n)])))
             for j, (z, p, cur, v, idx) in enumerate(o['data']):
                 Ik = o['I0'][idx]
                 g.append(('source %d: reported current is the feed-pulse current' % j, eq_term(cur, Ik)))
@@ -110,6 +119,19 @@ def linear(ck, sh, mm):
                 tot += mi.current
             if bad is None and not np.allclose(tot, m0.current, rtol=tol, atol=tol * scale):
                 bad = 'superposition fails: sum of single-source responses %r, joint response %r' % (tot, m0.current)
+            for i in range(k):
+                if bad:
+                    break
+                vs = [V[j] if j == i else 0j for j in range(k)]
+                mi, _ = _real_solve(mm, gname, c['f'], Zc, vs, pulses)
+                m1, _ = _real_solve(mm, gname, c['f'], Zc, [V[i]], [pulses[i]])
+                if not np.allclose(mi.current, m1.current, rtol=tol, atol=tol * scale):
+                    bad = ('source %d alone gives %r, the same source with the others held at 0 V gives %r'
+                           % (i, m1.current, mi.current))
+            if bad is None and k > 1:
+                mr, _ = _real_solve(mm, gname, c['f'], Zc, V[::-1], list(pulses)[::-1])
+                if not np.allclose(mr.current, m0.current, rtol=tol, atol=tol * scale):
+                    bad = 'currents depend on the order of source registration: %r vs %r' % (m0.current, mr.current)
             for j, s in enumerate(s0):
                 if bad:
                     break
